@@ -326,6 +326,61 @@ def kept_sites(cb):
     return out
 
 
+def rule_running_max_source(ctx, R, path, who):
+    """the largest distance "seen" is the largest distance that EXISTS: what is stored into the running maximum (a
+    captured f32 written through the closure environment) is a distance read from the stream element, never a
+    stand-in for a missing one (`unwrap_or(f32::MAX)`, a constant, a clamp) - a sentinel becomes the maximum and
+    every weight (max - d) explodes"""
+    F = ctx.F
+    b = ctx.anchor(R, path)
+    if b is None:
+        return 0
+    n = 0
+    for cb in all_closures(F, b):
+        eb = None
+        for i in sorted(cb.live_blocks()):
+            for si, s_ in enumerate(cb.blocks[i]['st']):
+                if s_['k'] != 'assign' or s_['lhs']['p'] != ['*'] and s_['lhs']['p'] != [{'deref': True}] :
+                    if not (s_['k'] == 'assign' and s_['lhs']['p'] and s_['lhs']['p'][0] == '*' and len(s_['lhs']['p']) == 1):
+                        continue
+                l = s_['lhs']['l']
+                if cb.locals[l].replace(' ', '') != '&mutf32':
+                    continue
+                ds = [d for d in cb.defs().get(l, []) if d[0] == 'assign' and d[3]['rv']['k'] == 'use' and
+                      d[3]['rv']['op'].get('k') in ('copy', 'move') and d[3]['rv']['op']['pl']['l'] == 1]
+                if not ds:
+                    continue
+                eb = eb or ExprBuilder(cb)
+                x = eb._rvalue(s_['rv'], (), 0, (i, si))
+                # the element this closure sees may be the output of an upstream `.map(..)` of the same chain: read the
+                # stored value in terms of the original stream element
+                if any(p.root == ('param', 2) for p in x.places()):
+                    from lib import adaptor_of_closure, subst_closure_param
+                    try:
+                        pb, ac = adaptor_of_closure(F, b, cb)
+                    except Exception:
+                        pb, ac = None, None
+                    if pb is not None and ac is not None:
+                        recv = ExprBuilder(pb).arg(ac, 0)
+                        for y in recv.walk():
+                            if y.kind == 'call' and y.name.rsplit('::', 1)[-1] == 'map' and hasattr(y.extra, 'args'):
+                                ups = closure_args_of_call(F, pb, y.extra)
+                                if len(ups) == 1:
+                                    r = ExprBuilder(ups[0]).place(0, ())
+                                    x = subst_closure_param(x, r)
+                                break
+                bad = [y.name.rsplit('::', 1)[-1] for y in x.walk() if y.kind == 'call' and y.name.rsplit('::', 1)[-1] in (
+                    'unwrap_or', 'unwrap_or_else', 'unwrap_or_default', 'map_or', 'map_or_else', 'max', 'min', 'clamp')]
+                consts = [y for y in x.walk() if y.kind == 'const']
+                n += 1
+                ctx.read(cb)
+                ctx.check(not bad and not consts, R, cb, who + ':running-maximum-fed-by-existing-distances', repr(x)[:80],
+                          'the running maximum of %s is assigned %r: a stand-in for a missing distance (%s) can become the '
+                          '"largest distance seen" and every vote weight (max - d) is computed against it' % (
+                              who, x, ', '.join(bad) or 'a constant'), s_.get('ln', ''))
+    return n
+
+
 def rule_filter_and_weights(ctx, R, path, who):
     """R17.1: d <= max_distance counted; groups with len >= min_votes kept; weight = sum(max_dist - d)"""
     F = ctx.F
